@@ -494,7 +494,7 @@ theorem wf_step_pool [Zero α] [One α] [Div α] [NatCast α] (p p' : Pool α) (
     simp only [step] at h
     split at h
     · next x r hx hr =>
-      split_ifs at h with hk hds hpos
+      split_ifs at h with hk
       split at h
       · next y hy =>
         cases h
